@@ -346,6 +346,14 @@ def load_known():
 def finish(ctx: Ctx, level_text_trusted: list[str], rule: str, checker_cmd: str) -> int:
     known = [k for k in load_known() if k["property"] == ctx.pid and k["status"] == "open"]
     known_sigs = {k["signature"]: k for k in known}
+    # the shared monitors (histories) state several properties at once: a hit on another property's statement is that property's
+    # check's business (its own check runs the same families); here it is recorded, not alarmed
+    foreign = [f for f in ctx.failing if re.match(r"C\d\d:", f["signature"]) and not f["signature"].startswith(ctx.pid + ":")]
+    ctx.failing = [f for f in ctx.failing if f not in foreign]
+    for sig in sorted({f["signature"] for f in foreign}):
+        print(f"NOTE monitor of another property fired during this check (not counted here): {sig}")
+    if foreign:
+        ctx.notes.append({"other_property_monitor_hits": sorted({f["signature"] for f in foreign})})
     unknown = [f for f in ctx.failing if f["signature"] not in known_sigs]
     reported_known = {}
     for f in ctx.failing:
